@@ -38,7 +38,10 @@ func (s *syncStore[H]) Head(ctx context.Context) (H, error) {
 		return storeHead, err
 	}
 
-	s.head.Store(&storeHead)
+	// only the first load fills the cache: an Append may have advanced it since the store was read
+	if !s.head.CompareAndSwap(nil, &storeHead) {
+		return *s.head.Load(), nil
+	}
 	return storeHead, nil
 }
 
